@@ -171,6 +171,17 @@ def check(case):
     if plain is not None:
         with sklearn.config_context(transform_output="pandas"):
             wrapped = tr.transform(_frame(case["train"], cols, case["train_index"], cat_cols, case["dtype"]))
+    if plain is not None:
+        # the training frame encoded through fit_transform (the entry point a Pipeline / ColumnTransformer uses for its inner steps): the
+        # same cells as fit followed by transform
+        tr_ft = _mod.CategoriesToIntegers(columns=columns, remove=o["remove"], skip_errors=o["skip_errors"], single=o["single"])
+        via_ft = tr_ft.fit_transform(_frame(case["train"], cols, case["train_index"], cat_cols, case["dtype"]))
+        require(list(map(str, via_ft.columns)) == list(map(str, plain.columns)) and list(via_ft.index) == list(plain.index), "fit_transform:labels",
+                "fit_transform: columns %r index %r; fit().transform(): columns %r index %r" % (list(via_ft.columns), list(via_ft.index)[:5], list(plain.columns), list(plain.index)[:5]), facts)
+
+        def _cells0(df):
+            return [[None if (isinstance(v, float) and v != v) or v is None else v for v in row] for row in df.astype(object).values.tolist()]
+        require(_cells0(via_ft) == _cells0(plain), "fit_transform:cells", "fit_transform(X) differs from fit(X).transform(X)", facts)
     if wrapped is None:
         wrapped = plain = pandas.DataFrame()
     require(list(map(str, wrapped.columns)) == list(map(str, plain.columns)), "pandas-output:column-names",
